@@ -78,7 +78,8 @@ def floors(ctx):
             "multi_match": 100 if q else 1000, "match_is_falsy": 100 if q else 1000,
             "no_match_none": 100 if q else 1000, "match_is_start": 20, "sought_not_identical": 100,
             "some_vertex_lacks_attr": 100, "match_only_outside_universe": 10, "cases_with_caching_on": 100, "identical_but_unequal_value_sought": 20,
-            "match_through_class_level_attribute_or_property": 100}
+            "match_through_class_level_attribute_or_property": 100,
+            "cases_with_attribute_name_that_is_not_an_identifier": 100}
 
 
 def _matches(v, attr, val):
@@ -231,6 +232,16 @@ def run(ctx):
         run_case(ctx, dict(spec, attrs={}), r.choice(starts), "idx", 1)
         run_case(ctx, spec, r.choice(starts), r.choice(["uid", "uid", "kind", "parity", "slot_a"]), r.randrange(12),
                  cache=r.random() < 0.3)
+        # attribute names that are not identifiers: a dotted name is ONE attribute (set through attributes= /
+        # v["unit.cost"] = ...), not a path; "key.real" also exists as a path on vertices whose key is a number
+        odd = r.choice(["key.real", "unit.cost", "key.", " key", "__class__.__name__"])
+        attrs2 = {i: dict(a) for i, a in attrs.items()}
+        for i in range(nverts):
+            if r.random() < 0.5:
+                attrs2.setdefault(str(i), {})[odd] = STORED[r.choice(pool)]
+        if any(odd in a for a in attrs2.values()):
+            ctx.count("cases_with_attribute_name_that_is_not_an_identifier")
+            run_case(ctx, dict(spec, attrs=attrs2), r.choice(starts), odd, r.choice(pool), cache=r.random() < 0.3)
         k += 1
         if k in (3, 400) and ctx.shard == 0:
             ctx.sample({"spec": spec, "start": si, "attr": "key", "sought": repr(sought(pool[0]))})
